@@ -82,7 +82,7 @@ class GlobalPeaksBatchIndependence(_TwoRun):
                "with 2 channels the 16 validity patterns x crop batches exceed the time budget and are not claimed",)
     not_decided = ("CentroidCrop with return_crops=True (_generate_crops) and use_gt_centroids; CentroidCrop.forward(return_crops=False) is decided for bounded peak counts only (see CentroidCropPerSample)",
                    "PAFScorer.predict batch glue (BottomUpInferenceModel._generate_cms_peaks / forward are decided under C03)",
-                   "Predictor._predict_generator: alignment of the frame_idx / video_idx / orig_size / eff_scale lists with the image batch (consumer loop, see C13)",
+                   "Predictor._predict_generator beyond the bounded consumer-loop contract shared with C13 (0..4 frames, batch size 1..3)",
                    "integral refinement in relational form beyond the bounded cases listed (2 channels, symbolic batch)",
                    "the network itself: per-sample independence of the model in eval mode is an ASSUMPTION of these contracts (ghost TableNet)")
 
